@@ -29,7 +29,7 @@ ASSUMPTIONS = [
     "wake tolerance: the sleeper's own timer latency from the jitter tape (<= 50 ms) + 1 ms",
 ]
 BUDGET = {
-    "quick": {"workers": 16, "examples": 3200},
+    "quick": {"workers": 16, "examples": 6400},
     "thorough": {"workers": 16, "examples": 80000},
 }
 
